@@ -249,7 +249,9 @@ PROPS["C18"] = {
     "technique": "reference-model monitor over real gather cycles on a fake transport.Net: published candidates and opened sockets compared with a reference set computed from (configuration, interface table, effective mDNS mode, mux presence); cycle-control assertions; Restart race with seeded pauses at hook H2",
     "level_text": "Generated configurations: candidate types {host, host+srflx, srflx}, network types (nil, empty, udp4, udp6, both, with tcp4), port ranges (none, 1-4 ports, wide), interface and IP deny filters, loopback flag, all mDNS modes, UDP mux (specific / unspecified); "
                   "interface tables with 1-4 interfaces (up, down, loopback) over 12 addresses incl. link-local, site-local fec0::/10, IPv4-compatible, ULA, 169.254/16. Soundness of every published candidate and of every socket the agent opened, completeness of host candidates, "
-                  "New->Gathering->Complete, refused second call, exactly one nil; Restart racing a running cycle.",
+                  "New->Gathering->Complete, refused second call, exactly one nil; Restart racing a running cycle. "
+                  "Also the local candidates created OUTSIDE a gathering cycle: on the real loopback interface a remote ICE-TCP passive candidate is added under candidate types {host, srflx, relay, host+srflx, srflx+relay, default} x network types x DisableActiveTCP, "
+                  "and every candidate then published or listed (the active TCP host candidates) must be of an enabled candidate and network type.",
     "level_note": "Relay and TCP-mux gathering are exercised under C09, not here. Completeness is asserted for UDP host candidates the agent listens for itself (no mux, mDNS not in gather mode).",
     "rule": "case = one configuration x one gather cycle; distinct_nontrivial counts distinct (types, network types, port range, filters, loopback, effective mDNS, mux, #eligible, #published) classes",
     "assumptions": ["effective mDNS mode is read from the agent after construction (opportunistic mDNS may fall back to disabled)"],
@@ -261,7 +263,8 @@ PROPS["C09"] = {
     "technique": "resource-tally monitor (every socket of the fake transport.Net, every mux handle, every TURN client / relay allocation has an identity and a close counter) asserted at the quiescent points named by the statement, over scripted lifetimes that enumerate the cut point of Restart/Close against each in-flight STUN exchange under injected faults",
     "level_text": "Gather configurations host / host+srflx / srflx / two STUN servers reporting one mapped address (duplicate candidate) / srflx-mapped (rewrite rules) / relay with a fake TURN client / UDP mux / TCP mux / host+srflx+relay, "
                   "1-3 cycles, cut points {reply then wait, Restart before the reply with the reply delivered afterwards, Restart with no reply, no reply (timeout), Restart at once}, final action Close / GracefulClose / Restart+Close, "
-                  "faults: n-th listen fails, TURN Listen fails, TURN Allocate fails, per-address sockets via an IP filter.",
+                  "faults: n-th listen fails, TURN Listen fails, TURN Allocate fails, per-address sockets via an IP filter, socket Close errors. "
+                  "Separate histories over the real loopback interface: the TCP connections behind active ICE-TCP candidates (towards a real listener) must end after Close / GracefulClose / Restart(+new candidates)+Close, and the descriptor count must return to its baseline.",
     "level_note": "The Failed-state release is covered by C06's 'failed' variant (candidate lists) rather than by the socket tally. Multiple Close calls on one socket are recorded, not judged (two legitimate owners race on shutdown).",
     "rule": "case = one scripted lifetime; distinct_nontrivial counts distinct (configuration kind, #addresses, #cycles, cut sequence, final action, filter, fault) classes",
     "assumptions": ["mDNS sockets belong to the agent's lifetime, not to a generation: judged at Close only"],
